@@ -58,19 +58,11 @@ Fixpoint hex_of (bs : bytes) : bytes :=
 
 (* Uuid::to_string: hyphenated lower case 8-4-4-4-12 *)
 Definition uuid_text (b : bytes) : bytes :=
-  match take 4 b with
-  | Some (g1, r1) =>
-    match take 2 r1 with
-    | Some (g2, r2) =>
-      match take 2 r2 with
-      | Some (g3, r3) =>
-        match take 2 r3 with
-        | Some (g4, g5) =>
-          hex_of g1 ++ [45] ++ hex_of g2 ++ [45] ++ hex_of g3 ++ [45] ++ hex_of g4 ++ [45] ++ hex_of g5
-        | None => [] end
-      | None => [] end
-    | None => [] end
-  | None => []
+  match b with
+  | [b0; b1; b2; b3; b4; b5; b6; b7; b8; b9; b10; b11; b12; b13; b14; b15] =>
+    hex_of [b0; b1; b2; b3] ++ 45 :: hex_of [b4; b5] ++ 45 :: hex_of [b6; b7] ++ 45 ::
+    hex_of [b8; b9] ++ 45 :: hex_of [b10; b11; b12; b13; b14; b15]
+  | _ => []
   end.
 
 Definition unhex (c : N) : option N :=
